@@ -249,6 +249,21 @@ def canPrune (owner : String) (policy : Nat) : Bool :=
   | .yes => true
   | .no => policy = 2
 
+/-- `common.NoDeletion` -/
+def noDeletion (key value : String) : Bool :=
+  (key = "client.lifecycle.config.k8s.io/deletion" && value = "detach") ||
+  (key = "cli-utils.sigs.k8s.io/on-remove" && value = "keep")
+
+/-- `PreventRemoveFilter`: some annotation prevents deletion -/
+def preventRemove (annots : List (String × String)) : Bool := annots.any (fun kv => noDeletion kv.1 kv.2)
+
+/-- `LocalNamespacesFilter` -/
+def namespaceInUse (id : Id) (localNs : List String) : Bool :=
+  id.group = "" && id.kind = "Namespace" && decide (id.name ∈ localNs)
+
+/-- `CurrentUIDFilter` -/
+def justApplied (uid : String) (applied : List String) : Bool := decide (uid ∈ applied)
+
 /-- outcome of the dependency filter for one relation -/
 inductive DepOutcome | pass | skip (reason : Reason) | fatal (reason : Reason)
 deriving DecidableEq, Repr
@@ -345,6 +360,18 @@ def depErrKind (e : DepEdges.DepErr) : String :=
   | (.external, _) :: _ => "external-dep"
   | [] => "field"
 
+/-- the task list of `Build` from the valid ids and the layering: inventory-add, per apply layer (apply, wait),
+per prune layer in reverse order (prune, wait), final inventory task; no wait tasks under dry-run -/
+def planTasks (run : Run) (applyIds pruneIds : List Id) (layers : List (List Id)) (prev : List Id) (prevErr : Bool) : List Task :=
+  let dryRun := decide (run.opts.dry ≠ .none)
+  let t0 : List Task := if run.destroy then [] else [⟨"inventory-add-0", .invAdd applyIds⟩]
+  let applyLayers := Graph.hydrate Ordering.less (fun v => decide (v ∈ applyIds)) layers
+  let ta := if applyIds.isEmpty then ([], 0) else layerTasks true dryRun applyLayers 0 0
+  let pruneLayers := Graph.reverseSetList (Graph.hydrate Ordering.less (fun v => decide (v ∈ pruneIds)) layers)
+  let tp := if (run.destroy || !run.opts.noPrune) && !pruneIds.isEmpty then layerTasks false dryRun pruneLayers 0 ta.2 else ([], ta.2)
+  let tEnd : Task := ⟨if run.destroy then "inventory-delete-or-update-0" else "inventory-set-0", .invSet prev prevErr⟩
+  t0 ++ ta.1 ++ tp.1 ++ [tEnd]
+
 /-- `TaskQueueBuilder.Build` (+ the field validation done before it); `prev` = GetClusterObjs at the end of Build -/
 def buildPlan (run : Run) (applyMs : List Manifest) (pruneObjs : List Live) (prev : List Id) (prevErr : Bool) : Plan :=
   -- field validation (applier validates the apply set, destroyer the delete set — both arrive here as `fieldBad`)
@@ -368,14 +395,8 @@ def buildPlan (run : Run) (applyMs : List Manifest) (pruneObjs : List Live) (pre
   let pruneObjs2 := pruneObjs1.filter (fun o => o.id ∉ inv3)
   let applyIds := applyMs2.map (·.id)
   let pruneIds := pruneObjs2.map (·.id)
-  let dryRun := run.opts.dry ≠ .none
-  let t0 : List Task := if run.destroy then [] else [⟨"inventory-add-0", .invAdd applyIds⟩]
-  let applyLayers := Graph.hydrate Ordering.less (fun v => decide (v ∈ applyIds)) s.1
-  let (ta, w1) := if applyIds.isEmpty then ([], 0) else layerTasks true dryRun applyLayers 0 0
-  let pruneLayers := Graph.reverseSetList (Graph.hydrate Ordering.less (fun v => decide (v ∈ pruneIds)) s.1)
-  let (tp, _) := if (run.destroy || !run.opts.noPrune) && !pruneIds.isEmpty then layerTasks false dryRun pruneLayers 0 w1 else ([], w1)
-  let tEnd : Task := ⟨if run.destroy then "inventory-delete-or-update-0" else "inventory-set-0", .invSet prev prevErr⟩
-  { tasks := t0 ++ ta ++ tp ++ [tEnd], invalid := inv3, valErrors := errs3, applyIds := applyIds, pruneIds := pruneIds, graph := g, edges := de.edges }
+  { tasks := planTasks run applyIds pruneIds s.1 prev prevErr, invalid := inv3, valErrors := errs3,
+    applyIds := applyIds, pruneIds := pruneIds, graph := g, edges := de.edges }
 
 /-! ## tasks -/
 
@@ -407,120 +428,189 @@ def patchLive (m : Manifest) (frm : Option String) (lastApplied : Bool) (old : L
 
 def opKind (s : St) : String := if s.run.destroy then "delete" else "prune"
 
+/-! ### apply: decision, then effect -/
+
+/-- what `ApplyTask.Start` decides for one object before it talks to kubectl -/
+inductive ApplyDecision
+  | fail (r : Reason)                 -- a filter failed fatally / the mutation failed
+  | skip (r : Reason)                 -- a filter said no
+  | go (frm : Option String)          -- apply, with this apply-time-mutation value (if any)
+deriving DecidableEq, Repr
+
+/-- `InventoryPolicyApplyFilter`: none = fatal (GET failed), some none = pass, some (some r) = skip -/
+def policyApply (s : St) (id : Id) : Option (Option Reason) :=
+  if s.run.opts.policy = 2 then some none
+  else match s.get id with
+    | none => none
+    | some none => some none
+    | some (some live) => if canApply live.owner s.run.opts.policy then some none else some (some "policy")
+
+/-- `ApplyTimeMutator.Mutate` for the one substitution the generated manifests use -/
+def mutateSource (s : St) (m : Manifest) : Except Reason (Option String) :=
+  match m.mutFrom with
+  | none => .ok none
+  | some src =>
+    match (match s.cache.lookup src with
+           | some o => if o.hasRes && o.status = Wait.KStatus.current then some () else none
+           | none => none) with
+    | some _ => (match s.cl.find? src with | some l => .ok (some l.rev) | none => .error "mutate")
+    | none => match s.get src with
+      | none => .error "mutate"
+      | some none => .error "mutate"
+      | some (some l) => .ok (some l.rev)
+
+def applyDecision (s : St) (m : Manifest) : ApplyDecision :=
+  match policyApply s m.id with
+  | none => .fail "fault"
+  | some (some r) => .skip r
+  | some none =>
+    match depFilter s.invalid s.mgr .apply (dryOf s) (Graph.deps s.graph m.id) with
+    | .fatal r => .fail r
+    | .skip r => .skip r
+    | .pass =>
+      match mutateSource s m with
+      | .error r => .fail r
+      | .ok frm => .go frm
+
+def applyFail (group : String) (s : St) (id : Id) (r : Reason) : St :=
+  { (s.emit (.op "apply" group id "Failed" r)) with mgr := s.mgr.add id .apply .failed }
+def applySkip (group : String) (s : St) (id : Id) (r : Reason) : St :=
+  { (s.emit (.op "apply" group id "Skipped" r)) with mgr := s.mgr.add id .apply .skipped }
+def applyOk (group : String) (s : St) (id : Id) (uid : String) (gen : Int) : St :=
+  { (s.emit (.op "apply" group id "Successful" "")) with mgr := s.mgr.add id .apply .succeeded uid gen }
+
+/-- store effect of one server-side-apply PATCH -/
+def ssaEffect (m : Manifest) (frm : Option String) (dry : Bool) (c : Cluster) : Cluster × String :=
+  match c.find? m.id with
+  | none => if dry then (c, "ok") else ((createLive m frm false c).1, "ok")
+  | some old => if dry then (c, "ok") else (c.put (patchLive m frm false old), "ok")
+
+/-- `newApplyOptions`: which kubectl path is taken (as repaired: never the server-side path under client dry-run) -/
+def useSSA (o : Opts) : Bool := (o.ssa && o.dry != .client) || o.dry == .server
+
+/-- kubectl, server-side apply: one PATCH (create or update), carrying the dry-run directive under server dry-run -/
+def ssaApply (group : String) (s : St) (m : Manifest) (frm : Option String) : St :=
+  let id := m.id
+  let dry := s.run.opts.dry == .server
+  let r := s.mutReq "patch" id dry "" "" (ssaEffect m frm dry)
+  if r.2 = "error" then applyFail group r.1 id "fault"
+  else
+    -- uid/generation returned by the server (for a dry-run: of the object that would result)
+    match s.cl.find? id with
+    | none => if dry then applyOk group r.1 id s!"uid-dry-{s.cl.nextUid + 1}" 1
+              else (match r.1.cl.find? id with | some l => applyOk group r.1 id l.uid l.gen | none => applyOk group r.1 id "" 0)
+    | some old => applyOk group r.1 id (patchLive m frm false old).uid (patchLive m frm false old).gen
+
+/-- kubectl, client-side apply: GET, then POST or PATCH (only if something changed; nothing under client dry-run) -/
+def csaApply (group : String) (s : St) (m : Manifest) (frm : Option String) : St :=
+  let id := m.id
+  match s.get id with
+  | none => applyFail group s id "fault"
+  | some none =>
+    if s.run.opts.dry = .client then applyOk group s id "" 0
+    else
+      let r := s.mutReq "create" id false "" "" (fun c => ((createLive m frm true c).1, "ok"))
+      if r.2 = "error" then applyFail group r.1 id "fault"
+      else match r.1.cl.find? id with | some l => applyOk group r.1 id l.uid l.gen | none => applyOk group r.1 id "" 0
+  | some (some old) =>
+    let n := patchLive m frm true old
+    let unchanged := old.lastApplied = some (contentOf m frm) && old.owner = invId && n = old
+    if unchanged || s.run.opts.dry = .client then applyOk group s id old.uid old.gen
+    else
+      let r := s.mutReq "patch" id false "" "" (fun c => (c.put n, "ok"))
+      if r.2 = "error" then applyFail group r.1 id "fault" else applyOk group r.1 id n.uid n.gen
+
+/-- kubectl's `ApplyOptions.Run` for one object -/
+def kubectlApply (group : String) (s : St) (m : Manifest) (frm : Option String) : St :=
+  if useSSA s.run.opts then ssaApply group s m frm else csaApply group s m frm
+
 /-- `ApplyTask.Start` for one object -/
 def applyOne (group : String) (s : St) (id : Id) : St :=
   match manifestOf s id with
   | none => s
   | some m =>
-    let fail (s : St) (r : Reason) : St :=
-      { (s.emit (.op "apply" group id "Failed" r)) with mgr := s.mgr.add id .apply .failed }
-    let skip (s : St) (r : Reason) : St :=
-      { (s.emit (.op "apply" group id "Skipped" r)) with mgr := s.mgr.add id .apply .skipped }
-    -- InventoryPolicyApplyFilter
-    let polRes : Option (Option Reason) :=          -- none = fatal (GET failed), some none = pass, some (some r) = skip
-      if s.run.opts.policy = 2 then some none
-      else match s.get id with
-        | none => none
-        | some none => some none
-        | some (some live) => if canApply live.owner s.run.opts.policy then some none else some (some "policy")
-    match polRes with
-    | none => fail s "fault"
-    | some (some r) => skip s r
-    | some none =>
-      match depFilter s.invalid s.mgr .apply (dryOf s) (Graph.deps s.graph id) with
-      | .fatal r => fail s r
-      | .skip r => skip s r
-      | .pass =>
-        -- apply-time mutation
-        let mutRes : Except Reason (Option String) :=
-          match m.mutFrom with
-          | none => .ok none
-          | some src =>
-            match (match s.cache.lookup src with
-                   | some o => if o.hasRes && o.status = Wait.KStatus.current then some () else none
-                   | none => none) with
-            | some _ => (match s.cl.find? src with | some l => .ok (some l.rev) | none => .error "mutate")
-            | none => match s.get src with
-              | none => .error "mutate"
-              | some none => .error "mutate"
-              | some (some l) => .ok (some l.rev)
-        match mutRes with
-        | .error r => fail s r
-        | .ok frm =>
-          let ok (s : St) (uid : String) (gen : Int) : St :=
-            { (s.emit (.op "apply" group id "Successful" "")) with mgr := s.mgr.add id .apply .succeeded uid gen }
-          if (s.run.opts.ssa && s.run.opts.dry ≠ .client) || s.run.opts.dry = .server then
-            -- one server-side-apply PATCH (create or update)
-            let dry := s.run.opts.dry = .server
-            let (s', res) := s.mutReq "patch" id dry "" "" (fun c =>
-              match c.find? id with
-              | none => if dry then (c, "ok") else ((createLive m frm false c).1, "ok")
-              | some old => if dry then (c, "ok") else (c.put (patchLive m frm false old), "ok"))
-            if res = "error" then fail s' "fault"
-            else
-              -- uid/generation returned by the server (for a dry-run: of the object that would result)
-              match s.cl.find? id with
-              | none => if dry then ok s' s!"uid-dry-{s.cl.nextUid + 1}" 1
-                        else (match s'.cl.find? id with | some l => ok s' l.uid l.gen | none => ok s' "" 0)
-              | some old => let n := patchLive m frm false old; ok s' n.uid n.gen
-          else
-            -- client-side apply: GET, then POST or PATCH (only if something changed)
-            match s.get id with
-            | none => fail s "fault"
-            | some none =>
-              if s.run.opts.dry = .client then ok s "" 0
-              else
-                let (s', res) := s.mutReq "create" id false "" "" (fun c => ((createLive m frm true c).1, "ok"))
-                if res = "error" then fail s' "fault"
-                else match s'.cl.find? id with | some l => ok s' l.uid l.gen | none => ok s' "" 0
-            | some (some old) =>
-              let n := patchLive m frm true old
-              let unchanged := old.lastApplied = some (contentOf m frm) && old.owner = invId && n = old
-              if unchanged || s.run.opts.dry = .client then ok s old.uid old.gen
-              else
-                let (s', res) := s.mutReq "patch" id false "" "" (fun c => (c.put n, "ok"))
-                if res = "error" then fail s' "fault" else ok s' n.uid n.gen
+    match applyDecision s m with
+    | .fail r => applyFail group s id r
+    | .skip r => applySkip group s id r
+    | .go frm => kubectlApply group s m frm
 
-/-- `Pruner.Prune` for one object (`live` = the object as read at planning time) -/
+/-! ### prune: decision, then effect -/
+
+inductive PruneDecision
+  | failNoUid
+  | preventDry                        -- deletion-prevention annotation, dry-run: skipped only
+  | preventNoAnnotation               -- … object carries no owning annotation: abandoned without a request
+  | preventUpdate                     -- … annotation removed with an update request, then abandoned
+  | skip (r : Reason)                 -- inventory policy / namespace in use / dependents
+  | fail (r : Reason)
+  | justApplied
+  | deleteDry
+  | delete
+deriving DecidableEq, Repr
+
+/-- the filter chain of `Pruner.Prune` for one object (`live` = the object as read at planning time) -/
+def pruneDecision (uids : List String) (localNs : List String) (s : St) (live : Live) : PruneDecision :=
+  if live.uid = "" then .failNoUid
+  else if live.keep || live.detach then
+    if dryOf s then .preventDry else if live.owner = "" then .preventNoAnnotation else .preventUpdate
+  else if !(canPrune live.owner s.run.opts.policy) then .skip "policy"
+  else if !s.run.destroy && namespaceInUse live.id localNs then .skip "namespace-in-use"
+  else match depFilter s.invalid s.mgr .delete (dryOf s) (dependentsOrdered s.edges live.id) with
+    | .fatal r => .fail r
+    | .skip r => .skip r
+    | .pass =>
+      if justApplied live.uid uids then .justApplied
+      else if dryOf s then .deleteDry else .delete
+
+def pruneFail (kind group : String) (s : St) (id : Id) (r : Reason) : St :=
+  { (s.emit (.op kind group id "Failed" r)) with mgr := s.mgr.add id .delete .failed }
+def pruneSkip (kind group : String) (s : St) (id : Id) (r : Reason) : St :=
+  { (s.emit (.op kind group id "Skipped" r)) with mgr := s.mgr.add id .delete .skipped }
+def pruneOk (kind group : String) (s : St) (id : Id) (uid : String) : St :=
+  { (s.emit (.op kind group id "Successful" "")) with mgr := s.mgr.add id .delete .succeeded uid }
+
+def propagationOf (s : St) : String := if s.run.opts.foreground then "Foreground" else "Background"
+
+/-- store effect of the annotation removal (the planned copy of the object, minus the annotation, is written) -/
+def abandonEffect (live : Live) (c : Cluster) : Cluster × String :=
+  match c.find? live.id with
+  | none => (c, "notfound")
+  | some cur => (c.put { cur with owner := "", keep := live.keep, detach := live.detach, rev := live.rev, frm := live.frm,
+                                  gen := if cur.rev ≠ live.rev || cur.frm ≠ live.frm then cur.gen + 1 else cur.gen }, "ok")
+
+/-- store effect of a delete with UID precondition (`finalizer`: the object is only marked) -/
+def deleteEffect (finalizer : Bool) (live : Live) (c : Cluster) : Cluster × String :=
+  match c.find? live.id with
+  | none => (c, "notfound")
+  | some cur =>
+    if cur.uid ≠ live.uid then (c, "conflict")
+    else if finalizer then (c.put { cur with deleting := true }, "ok")
+    else (c.remove live.id, "ok")
+
+/-- the scripted environment keeps the object (deletionTimestamp only) when a finalizer is configured for it -/
+def hasFinalizer (run : Run) (id : Id) : Bool := (run.del.lookup id).getD "gone" != "gone"
+
+/-- `Pruner.Prune` for one object -/
 def pruneOne (group : String) (uids : List String) (localNs : List String) (s : St) (live : Live) : St :=
   let id := live.id
   let kind := opKind s
-  let fail (s : St) (r : Reason) : St := { (s.emit (.op kind group id "Failed" r)) with mgr := s.mgr.add id .delete .failed }
-  let skip (s : St) (r : Reason) : St := { (s.emit (.op kind group id "Skipped" r)) with mgr := s.mgr.add id .delete .skipped }
-  if live.uid = "" then fail s "notfound"
-  else if live.keep || live.detach then
-    -- PreventRemoveFilter: remove the owning-inventory annotation and abandon (not under dry-run)
-    if dryOf s then skip s "prevent-remove"
-    else if live.owner = "" then skip { s with abandoned := s.abandoned ++ [id] } "prevent-remove"
-    else
-      let (s', res) := s.mutReq "update" id false "" "" (fun c =>
-        match c.find? id with
-        | none => (c, "notfound")
-        | some cur => (c.put { cur with owner := "", keep := live.keep, detach := live.detach, rev := live.rev, frm := live.frm,
-                                        gen := if cur.rev ≠ live.rev || cur.frm ≠ live.frm then cur.gen + 1 else cur.gen }, "ok"))
-      if res = "ok" then skip { s' with abandoned := s'.abandoned ++ [id] } "prevent-remove"
-      else fail s' (if res = "error" then "fault" else "notfound")
-  else if !(canPrune live.owner s.run.opts.policy) then skip s "policy"
-  else if !s.run.destroy && live.id.group = "" && live.id.kind = "Namespace" && live.id.name ∈ localNs then skip s "namespace-in-use"
-  else match depFilter s.invalid s.mgr .delete (dryOf s) (dependentsOrdered s.edges id) with
-    | .fatal r => fail s r
-    | .skip r => skip s r
-    | .pass =>
-      if live.uid ∈ uids then
-        skip (if dryOf s then s else { s with abandoned := s.abandoned ++ [id] }) "just-applied"
-      else
-        let ok (s : St) : St := { (s.emit (.op kind group id "Successful" "")) with mgr := s.mgr.add id .delete .succeeded live.uid }
-        if dryOf s then ok s
-        else
-          let prop := if s.run.opts.foreground then "Foreground" else "Background"
-          let (s', res) := s.mutReq "delete" id false live.uid prop (fun c =>
-            match c.find? id with
-            | none => (c, "notfound")
-            | some cur =>
-              if cur.uid ≠ live.uid then (c, "conflict")
-              else if (s.run.del.lookup id).getD "gone" ≠ "gone" then (c.put { cur with deleting := true }, "ok")
-              else (c.remove id, "ok"))
-          if res = "ok" || res = "notfound" then ok s' else fail s' (if res = "error" then "fault" else "precondition")
+  match pruneDecision uids localNs s live with
+  | .failNoUid => pruneFail kind group s id "notfound"
+  | .preventDry => pruneSkip kind group s id "prevent-remove"
+  | .preventNoAnnotation => pruneSkip kind group { s with abandoned := s.abandoned ++ [id] } id "prevent-remove"
+  | .preventUpdate =>
+    let r := s.mutReq "update" id false "" "" (abandonEffect live)
+    if r.2 = "ok" then pruneSkip kind group { r.1 with abandoned := r.1.abandoned ++ [id] } id "prevent-remove"
+    else pruneFail kind group r.1 id (if r.2 = "error" then "fault" else "notfound")
+  | .skip r => pruneSkip kind group s id r
+  | .fail r => pruneFail kind group s id r
+  | .justApplied => pruneSkip kind group (if dryOf s then s else { s with abandoned := s.abandoned ++ [id] }) id "just-applied"
+  | .deleteDry => pruneOk kind group s id live.uid
+  | .delete =>
+    let r := s.mutReq "delete" id false live.uid (propagationOf s)
+      (deleteEffect (hasFinalizer s.run id) live)
+    if r.2 = "ok" || r.2 = "notfound" then pruneOk kind group r.1 id live.uid
+    else pruneFail kind group r.1 id (if r.2 = "error" then "fault" else "precondition")
 
 /-- `DeleteOrUpdateInvTask.updateInventory`: the ids of the final inventory -/
 def finalInventory (mgr : Mgr Id) (prev abandoned invalid : List Id) : List Id :=
@@ -546,94 +636,100 @@ def storable (ids : List Id) : Bool :=
 /-- result of running a task: the state and whether the task reported an error (and its class) -/
 abbrev TaskRes := St × Option String
 
+def nsInv : Id := { ns := "", name := invNs, group := "", kind := "Namespace" }
+
+/-- store effect of `ApplyInventoryNamespace` (a plain create of the annotated namespace; AlreadyExists is tolerated) -/
+def nsCreateEffect (run : Run) (c : Cluster) : Cluster × String :=
+  match c.find? nsInv with
+  | some _ => (c, "exists")
+  | none =>
+    match run.objs.find? (fun m => m.id = nsInv) with
+    | some m =>
+      ((c.freshUid.2).put { id := nsInv, uid := c.freshUid.1, gen := 1, owner := invId, rev := "", keep := m.keep, detach := m.detach,
+                            lastApplied := some ("", none) }, "ok")
+    | none => (c, "ok")
+
+/-- first write of the inventory object -/
+def invCreateEffect (ids : List Id) (c : Cluster) : Cluster × String :=
+  ({ c.freshUid.2 with inv := some (dedup ids), invUid := c.freshUid.1 }, "ok")
+
+/-- update of the inventory object -/
+def invUpdateEffect (ids : List Id) (c : Cluster) : Cluster × String :=
+  match c.inv with
+  | none => (c, "notfound")
+  | some _ => ({ c with inv := some ids }, "ok")
+
+def errOfRes (res : String) : Option String := if res = "ok" then none else some (if res = "error" then "fault" else "other")
+
+/-- `ClusterClient.Merge` -/
+def mergeInv (s : St) (ids : List Id) : TaskRes :=
+  let r1 := s.invRead
+  match r1.2 with
+  | none => (r1.1, some "fault")
+  | some none =>
+    if !storable ids then (r1.1, some "other")
+    else if dryOf r1.1 then (r1.1, none)
+    else
+      let r := r1.1.mutReq "create" invObjId false "" "" (invCreateEffect ids)
+      (r.1, if r.2 = "error" then some "fault" else none)
+  | some (some _) =>
+    let r2 := r1.1.invRead
+    match r2.2 with
+    | none => (r2.1, some "fault")
+    | some cur =>
+      let clusterObjs := cur.getD []
+      let union := IdSet.union clusterObjs ids
+      if !storable union then (r2.1, some "other")
+      else if IdSet.equal ids clusterObjs then (r2.1, none)
+      else if dryOf r2.1 then (r2.1, none)
+      else
+        let r := r2.1.mutReq "update" invObjId false "" "" (invUpdateEffect union)
+        (r.1, errOfRes r.2)
+
 /-- `InvAddTask.Start` -/
 def runInvAdd (s : St) (ids : List Id) : TaskRes :=
   -- inventory namespace in the apply set: created first (not under dry-run)
-  let nsId : Id := { ns := "", name := invNs, group := "", kind := "Namespace" }
-  let (s, nsErr) :=
-    if nsId ∈ ids && !dryOf s then
-      let (s', res) := s.mutReq "create" nsId false "" "" (fun c =>
-        match c.find? nsId with
-        | some _ => (c, "exists")
-        | none =>
-          match (s.run.objs.find? (fun m => m.id = nsId)) with
-          | some m =>
-            let (u, c1) := c.freshUid
-            (c1.put { id := nsId, uid := u, gen := 1, owner := invId, rev := "", keep := m.keep, detach := m.detach,
-                      lastApplied := some ("", none) }, "ok")
-          | none => (c, "ok"))
-      (s', res = "error")
-    else (s, false)
-  if nsErr then (s, some "fault")
+  if nsInv ∈ ids && !dryOf s then
+    let r := s.mutReq "create" nsInv false "" "" (nsCreateEffect s.run)
+    if r.2 = "error" then (r.1, some "fault") else mergeInv r.1 ids
+  else mergeInv s ids
+
+/-- `ClusterClient.Replace` -/
+def replaceInv (s : St) (objs : List Id) : TaskRes :=
+  if dryOf s then (s, none)
   else
-    -- Merge
-    let (s, r1) := s.invRead
-    match r1 with
-    | none => (s, some "fault")
-    | some none =>
-      if !storable ids then (s, some "other")
-      else if dryOf s then (s, none)
-      else
-        let (s', res) := s.mutReq "create" invObjId false "" "" (fun c =>
-          let (u, c1) := c.freshUid
-          ({ c1 with inv := some (dedup ids), invUid := u }, "ok"))
-        (s', if res = "error" then some "fault" else none)
-    | some (some _) =>
-      let (s, r2) := s.invRead
-      match r2 with
-      | none => (s, some "fault")
+    let r1 := s.invRead
+    match r1.2 with
+    | none => (r1.1, some "fault")
+    | some _ =>
+      let r2 := r1.1.invRead
+      match r2.2 with
+      | none => (r2.1, some "fault")
       | some cur =>
         let clusterObjs := cur.getD []
-        let union := IdSet.union clusterObjs ids
-        if !storable union then (s, some "other")
-        else if IdSet.equal ids clusterObjs then (s, none)
-        else if dryOf s then (s, none)
+        if !storable objs then (r2.1, some "other")
+        else if IdSet.equal objs clusterObjs then (r2.1, none)
         else
-          let (s', res) := s.mutReq "update" invObjId false "" "" (fun c =>
-            match c.inv with
-            | none => (c, "notfound")
-            | some _ => ({ c with inv := some union }, "ok"))
-          (s', if res = "ok" then none else some (if res = "error" then "fault" else "other"))
+          let r := r2.1.mutReq "update" invObjId false "" "" (invUpdateEffect (dedup objs))
+          (r.1, errOfRes r.2)
+
+/-- `DeleteInventoryObj` (by label: list, then delete each — the dry-run test sits in the per-object delete) -/
+def deleteInv (s : St) : TaskRes :=
+  let r1 := s.invRead
+  match r1.2 with
+  | none => (r1.1, some "fault")
+  | some none => (r1.1, none)
+  | some (some _) =>
+    if dryOf r1.1 then (r1.1, none)
+    else
+      let r := r1.1.mutReq "delete" invObjId false "" "" (fun c => ({ c with inv := none }, "ok"))
+      (r.1, if r.2 = "error" then some "fault" else none)
 
 /-- `DeleteOrUpdateInvTask.Start` -/
 def runInvSet (s : St) (prev : List Id) (prevErr : Bool) : TaskRes :=
   if prevErr then (s, some "fault")
-  else if s.run.destroy && destroySuccessful s.mgr prev s.abandoned s.invalid then
-    -- deleteInventory: list by label, delete each
-    if dryOf s then
-      -- the LIST happens before the dry-run test of the per-object delete
-      let (s, r) := s.invRead
-      (s, if r.isNone then some "fault" else none)
-    else
-      let (s, r) := s.invRead
-      match r with
-      | none => (s, some "fault")
-      | some none => (s, none)
-      | some (some _) =>
-        let (s', res) := s.mutReq "delete" invObjId false "" "" (fun c => ({ c with inv := none }, "ok"))
-        (s', if res = "error" then some "fault" else none)
-  else
-    let objs := finalInventory s.mgr prev s.abandoned s.invalid
-    if dryOf s then (s, none)
-    else
-      let (s, r1) := s.invRead
-      match r1 with
-      | none => (s, some "fault")
-      | some clusterInv =>
-        let (s, r2) := s.invRead
-        match r2 with
-        | none => (s, some "fault")
-        | some cur =>
-          let clusterObjs := cur.getD []
-          if !storable objs then (s, some "other")
-          else if IdSet.equal objs clusterObjs then (s, none)
-          else
-            let _ := clusterInv
-            let (s', res) := s.mutReq "update" invObjId false "" "" (fun c =>
-              match c.inv with
-              | none => (c, "notfound")
-              | some _ => ({ c with inv := some (dedup objs) }, "ok"))
-            (s', if res = "ok" then none else some (if res = "error" then "fault" else "other"))
+  else if s.run.destroy && destroySuccessful s.mgr prev s.abandoned s.invalid then deleteInv s
+  else replaceInv s (finalInventory s.mgr prev s.abandoned s.invalid)
 
 /-! ## wait phases: the scripted status feed -/
 
@@ -779,35 +875,37 @@ def getPruneObjs (s : St) (applyIds : List Id) : St × Option (List Live) :=
           | some (some o) => some (l ++ [o])) (some [])
     (s, res)
 
+/-- bookkeeping between `Build` and the runner: validation events, invalid ids, the graph, the pending registrations
+made by `Build` (and, with pruning disabled, the skipped-delete registration of the un-applied tracked objects), plan event -/
+def prepare (s : St) (plan : Plan) (pruneObjs : List Live) : St :=
+  let run := s.run
+  let s := plan.valErrors.foldl (fun s e => s.emit (.validation e.1 e.2)) s
+  let m1 := plan.applyIds.foldl (fun m i => m.add i .apply .pending) s.mgr
+  let m2 := if (run.destroy || !run.opts.noPrune) && !plan.pruneIds.isEmpty then
+      plan.pruneIds.foldl (fun m i => m.add i .delete .pending) m1 else m1
+  let m3 := if !run.destroy && run.opts.noPrune then pruneObjs.foldl (fun m o => m.add o.id .delete .skipped) m2 else m2
+  { s with invalid := plan.invalid, graph := plan.graph, edges := plan.edges, mgr := m3,
+           events := .init (plan.tasks.map (fun t => (t.name, t.action run.destroy, t.ids))) :: s.events }
+
+def localNamespaces (applyIdsAll : List Id) : List String := dedup ((applyIdsAll.map (·.ns)).filter (· ≠ "") ++ [invNs])
+
 /-- `Applier.Run` / `Destroyer.Run` -/
 def runOne (c : Cluster) (run : Run) : St :=
-  let c := run.envDel.foldl (fun c i => c.remove i) c
-  let s : St := { cl := c, run := run }
+  let s0 : St := { cl := run.envDel.foldl (fun c i => c.remove i) c, run := run }
   let applyMs := if run.destroy then [] else run.objs
   let applyIdsAll := applyMs.map (·.id)
-  let (s, pr) := getPruneObjs s applyIdsAll
-  match pr with
-  | none => s.emit (.error "fault")
+  let r1 := getPruneObjs s0 applyIdsAll
+  match r1.2 with
+  | none => r1.1.emit (.error "fault")
   | some pruneObjs =>
-    -- Build reads the stored inventory once more (errors ignored)
-    let (s, prevR) := s.invRead
-    let prev : List Id := match prevR with | some (some l) => l | _ => []
-    let plan := buildPlan run applyMs pruneObjs prev prevR.isNone
-    if !run.opts.skipInvalid && !plan.valErrors.isEmpty then s.emit (.error "other")
+    -- Build reads the stored inventory once more (an error is handed to the final task)
+    let r2 := r1.1.invRead
+    let prev : List Id := match r2.2 with | some (some l) => l | _ => []
+    let plan := buildPlan run applyMs pruneObjs prev r2.2.isNone
+    if !run.opts.skipInvalid && !plan.valErrors.isEmpty then r2.1.emit (.error "other")
     else
-      let s := plan.valErrors.foldl (fun s e => s.emit (.validation e.1 e.2)) s
-      let s := { s with invalid := plan.invalid, graph := plan.graph, edges := plan.edges }
-      -- pending registrations made by Build
-      let s := { s with mgr := plan.applyIds.foldl (fun m i => m.add i .apply .pending) s.mgr }
-      let s := if (run.destroy || !run.opts.noPrune) && !plan.pruneIds.isEmpty then
-          { s with mgr := plan.pruneIds.foldl (fun m i => m.add i .delete .pending) s.mgr } else s
-      -- pruning disabled (as repaired): the un-applied tracked objects are recorded as skipped deletes
-      let s := if !run.destroy && run.opts.noPrune then
-          { s with mgr := pruneObjs.foldl (fun m o => m.add o.id .delete .skipped) s.mgr } else s
-      let s := s.emit (.init (plan.tasks.map (fun t => (t.name, t.action run.destroy, t.ids))))
+      let s := prepare r2.1 plan pruneObjs
       if run.cancel = .beforeSync then s.emit (.error "canceled")
-      else
-        let localNs := dedup ((applyIdsAll.map (·.ns)).filter (· ≠ "") ++ [invNs])
-        runTasks pruneObjs localNs s plan.tasks
+      else runTasks pruneObjs (localNamespaces applyIdsAll) s plan.tasks
 
 end CliUtils.Sys
